@@ -2,7 +2,7 @@
    the kernel-weighted defining sum  kernel_k * sum_j x_j exp(sg i (x0 + j s) xi_k)
    for every length, parity, shift choice and sign. *)
 From Coq Require Import ZArith Reals Lra Lia List Bool Arith.
-From Verif Require Import Base.Num Lib.Axis C18.Model C18.ProofsGrid C18.ProofsDFT C18.ProofsCx C18.ProofsAxis C18.ProofsFT.
+From Verif Require Import Base.Num Lib.Axis Gen.FtFormulas C18.Model C18.ProofsGrid C18.ProofsDFT C18.ProofsCx C18.ProofsAxis C18.ProofsFT.
 Import ListNotations.
 Local Open Scope R_scope.
 
@@ -64,12 +64,12 @@ Qed.
 Lemma cis_int_sign n sg j : is_sign sg -> cispi (- sg * INR j) = pre_fac cispi n true sg j.
 Proof.
   intros Hs. unfold pre_fac. induction j as [|j IH].
-  - simpl (INR 0). replace (- sg * 0) with 0 by lra. exact cis_0.
+  - simpl (INR 0). replace (- sg * 0) with 0 by lra. rewrite cis_0. cbn [Nat.even]. unfold of_re; genR. reflexivity.
   - rewrite S_INR. replace (- sg * (INR j + 1)) with (- sg * INR j + - sg) by lra.
     rewrite cis_add, IH. rewrite Nat.even_succ, <- Nat.negb_even.
     assert (Hm : cispi (- sg) = cscal (-1) c1).
     { destruct Hs as [-> | ->]; [exact cis_m1 | replace (- -1) with 1 by lra; exact cis_1]. }
-    rewrite Hm. destruct (Nat.even j); cbn [negb]; cx_simpl; apply cx_eq; cbn [fst snd]; lra.
+    rewrite Hm. destruct (Nat.even j); cbn [negb]; unfold of_re; genR; cx_simpl; apply cx_eq; cbn [fst snd]; lra.
 Qed.
 
 (* the three phase factors multiply to the phase of the defining sum *)
@@ -88,7 +88,7 @@ Proof.
   rewrite mult_INR.
   unfold pre_fac. destruct sh.
   - fold (pre_fac cispi n true sg j). rewrite <- (cis_int_sign n sg j Hs). rewrite <- !cis_add. f_equal. field. split; lra.
-  - rewrite !of_nat_INR. numR. rewrite <- !cis_add. f_equal. field. split; lra.
+  - genR. rewrite <- !cis_add. f_equal. field. split; lra.
 Qed.
 
 Lemma cscal_cmul_r (r : R) (a b : Cx) : cmul a (cscal r b) = cscal r (cmul a b).
@@ -110,7 +110,8 @@ Theorem ft_is_defining_sum (a : Raxis) (sh : bool) (sg : R) (x : list Cx) (k : n
 Proof.
   intros Hs Hn Hst Hx Hk.
   set (n := a_n a) in *.
-  unfold ft_forward, f_rshape, f_shape, dft_forward. cbn [f_grid f_axes f_shifts f_sg f_hc map].
+  unfold ft_forward, f_rshape, f_shape. rewrite (ftc_forward_unfold cispi) by exact Hs.
+  cbn [f_grid f_axes f_shifts f_sg f_hc map].
   fold n. cbn [pre_facs post_facs nth last_axis last andb]. fold n.
   set (pre := tensor_mult [n] [(0%nat, tabulate n (pre_fac cispi n sh sg))] x).
   assert (Hpre : length pre = n) by (unfold pre; rewrite tensor_mult_length; exact Hx).
@@ -124,7 +125,7 @@ Proof.
   cbn [tensor_fac]. rewrite axis_index_1d by exact Hk. rewrite cmul_1_r.
   rewrite tabulate_nth by exact Hk.
   unfold dft1. rewrite (dft_gen_nth Cx c0 cadd cmul) by lia. rewrite Hpre.
-  unfold post_fac. cbv zeta. cbn [a_n recip_axis]. fold n.
+  unfold post_fac, pp_arg, rg_half_n. cbv zeta. cbn [a_n recip_axis]. fold n.
   rewrite cscal_cmul_r. f_equal.
   rewrite <- (sum_scal_r Cx c0 c1 cadd cmul csub copp cx_ring).
   apply (sum_ext Cx c0 cadd). intros j Hj.
@@ -156,7 +157,8 @@ Proof.
   set (n := a_n a) in *.
   assert (Hkn : (k < n)%nat).
   { pose proof (Nat.div_mod_eq n 2). pose proof (Nat.mod_upper_bound n 2 ltac:(lia)). lia. }
-  unfold ft_forward, f_rshape, f_shape, dft_forward, rfftn, hc_shape, set_nth.
+  unfold ft_forward, f_rshape, f_shape. rewrite (ftc_forward_unfold cispi) by exact Hs.
+  unfold rfftn, hc_shape, set_nth.
   cbn [f_grid f_axes f_shifts f_sg f_hc map last_axis last removelast nth firstn skipn app].
   fold n. cbn [pre_facs post_facs nth andb Nat.eqb]. fold n.
   set (pre := tensor_mult [n] [(0%nat, tabulate n (pre_fac cispi n true (-1)))] x).
@@ -168,7 +170,7 @@ Proof.
     cbn [tensor_fac]. rewrite axis_index_1d by lia. rewrite cmul_1_r, tabulate_nth by lia.
     assert (Hxi : snd (nth i x c0) = 0) by (rewrite Forall_forall in Hreal; apply Hreal, nth_In; exact Hi).
     destruct (nth i x c0) as [xr xi]. cbn [snd] in Hxi. subst xi.
-    unfold pre_fac. destruct (Nat.even i); cx_simpl; apply cx_eq; cbn [fst snd]; lra. }
+    unfold pre_fac. destruct (Nat.even i); unfold of_re; genR; cx_simpl; apply cx_eq; cbn [fst snd]; lra. }
   assert (Hd : dftn cispi (- none_)%num [(n / 2 + 1)%nat] [] (along_ax [n] 0 (n / 2 + 1) (rfft1n cispi n) pre)
                = firstn (n / 2 + 1) (dft1 cispi (-1) pre)).
   { cbn [dftn fold_right]. unfold along_ax, inner_of. cbn [firstn skipn prodn fold_right nth].
@@ -187,7 +189,7 @@ Proof.
   rewrite tabulate_nth by exact Hk.
   rewrite nth_firstn by exact Hk.
   unfold dft1. rewrite (dft_gen_nth Cx c0 cadd cmul) by lia. rewrite Hpre.
-  unfold post_fac. cbv zeta. cbn [a_n recip_axis]. fold n.
+  unfold post_fac, pp_arg, rg_half_n. cbv zeta. cbn [a_n recip_axis]. fold n.
   rewrite cscal_cmul_r. f_equal.
   rewrite <- (sum_scal_r Cx c0 c1 cadd cmul csub copp cx_ring).
   apply (sum_ext Cx c0 cadd). intros j Hj.
